@@ -240,7 +240,7 @@ class WFSA:
 
     @property
     def one(self):
-        return self.__class__.lift(EPSILON, self.R.one)
+        return self.__class__.lift(EPSILON, self.R.one, R=self.R)
 
     def star(self):
         return self.one + self.kleene_plus()
